@@ -68,6 +68,27 @@ pub fn run(ctx: &mut Ctx) {
         }
     }
     ctx.exhaustive.insert("63_mode_subsets_x_fixed_inputs".into(), true);
+    // small scope: every string of length <= 3 over class representatives under every mode subset
+    let alpha: [u8; 12] = [b'1', b'A', b'a', b' ', b'\r', b'*', b'!', b'?', b'~', 0x80, 0x1d, b'>'];
+    let mut idx = 0usize;
+    for len in 0..=3usize {
+        let total = alpha.len().pow(len as u32);
+        for code in 0..total {
+            if ctx.mine(idx) {
+                let mut c = code;
+                let mut v = Vec::with_capacity(len);
+                for _ in 0..len {
+                    v.push(alpha[c % alpha.len()]);
+                    c /= alpha.len();
+                }
+                for mask in 1..=63u8 {
+                    eval(ctx, &EncCase { input: v.clone(), list: "default".into(), mask, macros: false, fnc1: code % 7 == 3, eci: None, order: 0, prelude: 0, skipdef: false }, "small_scope_all_63_subsets");
+                }
+            }
+            idx += 1;
+        }
+    }
+    ctx.exhaustive.insert("strings_len_le_3_over_12_representatives_x_63_mode_subsets".into(), true);
     let n = ctx.budget(300_000, 30_000_000);
     for i in 0..n {
         let mut c = gen_case(&mut ctx.rng, 3116);
